@@ -33,9 +33,17 @@ LAB_STR = ['c7', 'a3', 'z9', 'b1', 'm5', 'q8', 'd2']
 EPS = float(np.finfo(np.float64).eps)
 
 
+# scale flavours (float64 data only): the same integer design multiplied by a physical unit factor.
+# The property is scale-equivariant, cov(c x) = c^2 cov(x): every returned matrix is divided by c^2
+# and then judged exactly as the unit-scale one (relative tolerances in the units of the design).
+SCALES = [1.0, 1e-9, 1.0, 1e-12, 1.0, 1e6]
+
+
 def flavour(i):
-    return {'dtype': DTYPES[i % 4], 'dofcont': ('list', 'array', 'tuple')[(i // 4) % 3],
-            'labkind': ('int', 'str')[(i // 2) % 2], 'desccont': ('list', 'array')[(i // 3) % 2]}
+    dt = DTYPES[i % 4]
+    return {'dtype': dt, 'dofcont': ('list', 'array', 'tuple')[(i // 4) % 3],
+            'labkind': ('int', 'str')[(i // 2) % 2], 'desccont': ('list', 'array')[(i // 3) % 2],
+            'scale': SCALES[(i // 4) % 6] if dt == 'float64' else 1.0}
 
 
 def _api():
@@ -50,6 +58,9 @@ def build_input(vec, fl):
     _, Dataset = _api()
     dt = np.dtype(fl['dtype'])
     arrs = [np.array(b['x'], dtype=dt).reshape(len(b['x']), vec['P']) for b in vec['blocks']]
+    c = float(fl.get('scale', 1.0))
+    if c != 1.0:
+        arrs = [a * c for a in arrs]
     form = vec['form']
     if form == 1:
         data = arrs[0]
@@ -154,7 +165,7 @@ def nan_class(method, num, rows):
     return 'other'
 
 
-def shrink_relation(method, M, F, tol):
+def shrink_relation(method, M, F, tol, lam_slack=0.0):
     """Is M = l*T + (1-l)*F for ONE l in [0,1]?  returns (class or None, l or None, detail)"""
     P = F.shape[0]
     scale = max(1.0, float(np.abs(F).max()))
@@ -168,7 +179,7 @@ def shrink_relation(method, M, F, tol):
         return 'not-convex-combination', None, {'maxdev': float(np.abs(M - F).max())}
     i, j = np.unravel_index(np.argmax(np.abs(D)), D.shape)
     lam = float((F[i, j] - M[i, j]) / D[i, j])
-    tl = 1e-12 + 64 * EPS * scale / dmax
+    tl = 1e-12 + 64 * EPS * scale / dmax + lam_slack
     if not np.isfinite(lam) or lam < -tl or lam > 1 + tl:
         return 'lambda-out-of-range', lam, {'entry': [int(i), int(j)]}
     R = lam * T + (1 - lam) * F
@@ -288,6 +299,11 @@ def check_vector(vec, idx):
                 fd.v(f'C14/f/{cname}/{fc}/input-modified', f'{cname} modified its input', {**case, 'method': method})
             mats = _as_mats(res, K, P, single)
             shape_bad = mats is None
+            c2 = float(fl.get('scale', 1.0)) ** 2
+            if c2 != 1.0:
+                fd.s('scaled_calls')
+                if est == 'residuals' and any(np.array(b['x']).sum(axis=0).any() for b in vec['blocks']):
+                    fd.s('scaled_residual_calls_nonzero_column_means')
             if shape_bad:
                 cl = 'e' if not single else 'a'
                 fd.v(f'C14/{cl}/{cname}/{dc}/result-shape' if not single else f'C14/a/{cname}/{fc}/result-shape',
@@ -295,11 +311,12 @@ def check_vector(vec, idx):
                      {**case, 'method': method})
             else:
                 if all(np.isfinite(np.asarray(m, float)).all() for m in mats):
-                    raw[(est, method)] = mats
+                    raw[(est, method)] = [np.asarray(m, np.float64) / c2 for m in mats]
                 ok = True
                 for k in range(K):
-                    ok &= _check_matrix(fd, cname, method, np.asarray(mats[k], dtype=np.float64), exp[k],
-                                        vec['blocks'][k], tol, fc, dc, {**case, 'method': method, 'element': k})
+                    ok &= _check_matrix(fd, cname, method, np.asarray(mats[k], dtype=np.float64) / c2, exp[k],
+                                        vec['blocks'][k], tol, fc, dc, {**case, 'method': method, 'element': k},
+                                        sc='/scaled-data' if c2 != 1.0 else '')
                 if ok:
                     covs[(est, method)] = mats
             # ---- precision = inverse of the covariance returned for the same arguments
@@ -315,13 +332,13 @@ def check_vector(vec, idx):
             for k in range(K):
                 sc = max(1.0, float(np.abs(b[k]).max()))
                 if not np.abs(np.asarray(a[k], float) - np.asarray(b[k], float)).max() <= max(tol, 1e-9) * sc:
-                    fd.v('C14/d/measurements-vs-unbalanced/disagree',
+                    fd.v('C14/d/measurements-vs-unbalanced/disagree' + ('/scaled-data' if fl.get('scale', 1.0) != 1.0 else ''),
                          'cov_from_measurements and cov_from_unbalanced differ on a balanced design',
                          {**case, 'method': method, 'element': k})
     return fd
 
 
-def _check_matrix(fd, cname, method, M, ex, block, tol, fc, dc, case):
+def _check_matrix(fd, cname, method, M, ex, block, tol, fc, dc, case, sc=''):
     """clauses a, b, c for one returned matrix; True iff it is in the specification"""
     F, num, dofk = ex
     P = F.shape[0]
@@ -333,9 +350,9 @@ def _check_matrix(fd, cname, method, M, ex, block, tol, fc, dc, case):
                 fd.unsup.append((f'{method}/{cls}', 'degenerate input: non-finite estimate'))
                 fd.s('degenerate_excluded')
             else:
-                fd.v(f'C14/c/{method}/nan/{cls}', f'{method} returns non-finite values ({cls})', case)
+                fd.v(f'C14/c/{method}/nan/{cls}{sc}', f'{method} returns non-finite values ({cls})', case)
         else:
-            fd.v(f'C14/{"a" if method == "full" else "b"}/{cname}/{fc}/{dc}/nonfinite', f'{method}: non-finite values', case)
+            fd.v(f'C14/{"a" if method == "full" else "b"}/{cname}/{fc}/{dc}/nonfinite{sc}', f'{method}: non-finite values', case)
         return False
     if method in ('full', 'diag'):
         E = F if method == 'full' else np.diag(np.diag(F))
@@ -346,7 +363,7 @@ def _check_matrix(fd, cname, method, M, ex, block, tol, fc, dc, case):
         cls = 'values'
         if c is not None and np.abs(M / c - E).max() <= tol * scale:
             cls = 'scaled-by-constant'
-        fd.v(f'C14/{"a" if method == "full" else "b"}/{cname}/{fc}/{dc}/{cls}',
+        fd.v(f'C14/{"a" if method == "full" else "b"}/{cname}/{fc}/{dc}/{cls}{sc}',
              f"{cname}(method='{method}') differs from cross-product/dof"
              + (f' by the constant factor {c:.6g}' if cls == 'scaled-by-constant' else ''),
              {**case, 'got': M, 'expected': E, 'dof_expected': dofk})
@@ -356,25 +373,26 @@ def _check_matrix(fd, cname, method, M, ex, block, tol, fc, dc, case):
         # finite answer on a degenerate input: nothing to demand beyond what follows
         fd.s('degenerate_finite')
     fd.s('shrink_checked')
-    cls, lam, det = shrink_relation(method, M, F, tol)
+    slack = 2e-9 if sc else 0.0
+    cls, lam, det = shrink_relation(method, M, F, tol, slack)
     if cls is not None:
         c = _const_scale(M, F, tol)
         if c is not None:
-            cls2, lam2, _ = shrink_relation(method, M / c, F, tol)
+            cls2, lam2, _ = shrink_relation(method, M / c, F, tol, slack)
             if cls2 is None:
                 cls, det = 'scaled-by-constant', {'factor': c, 'lambda_after_rescaling': lam2}
-        fd.v(f'C14/c/{cname}/{fc}/{dc}/{method}/{cls}',
+        fd.v(f'C14/c/{cname}/{fc}/{dc}/{method}/{cls}{sc}',
              f"{cname}(method='{method}') is not l*target+(1-l)*Full for one l in [0,1]: {cls}",
              {**case, 'got': M, 'full': F, 'lambda': lam, 'detail': {k: v for k, v in det.items() if k != 'T'}
               if isinstance(det, dict) else det})
         return False
     good = True
     if np.abs(M - M.T).max() > 1e-12 * scale:
-        fd.v(f'C14/c/{cname}/{method}/asymmetric', 'shrinkage estimate is not symmetric', {**case, 'got': M})
+        fd.v(f'C14/c/{cname}/{method}/asymmetric{sc}', 'shrinkage estimate is not symmetric', {**case, 'got': M})
         good = False
     ev = np.linalg.eigvalsh((M + M.T) / 2)
     if ev.min() < -1e-12 * max(1.0, float(np.trace(M))):
-        fd.v(f'C14/c/{cname}/{method}/not-psd', f'smallest eigenvalue {ev.min():.3g}', {**case, 'got': M})
+        fd.v(f'C14/c/{cname}/{method}/not-psd{sc}', f'smallest eigenvalue {ev.min():.3g}', {**case, 'got': M})
         good = False
     if lam is None:
         fd.s('lambda_unidentified')
@@ -386,7 +404,7 @@ def _check_matrix(fd, cname, method, M, ex, block, tol, fc, dc, case):
         if lam > 1e-9 and tmin > 0:
             fd.s('pd_checked')
             if not ev.min() >= lam * tmin * (1 - 1e-9) - 1e-12 * scale or not ev.min() > 0:
-                fd.v(f'C14/c/{cname}/{method}/not-pd-with-active-shrinkage',
+                fd.v(f'C14/c/{cname}/{method}/not-pd-with-active-shrinkage{sc}',
                      f'l={lam:.6g} but smallest eigenvalue {ev.min():.3g}', {**case, 'got': M})
                 good = False
     return good
@@ -503,6 +521,7 @@ def record_trace(vec, est, idx, corrupt=False):
     from the implementation's OWN 'full' output; Trace_NoiseCov recomputes the definition."""
     fl = flavour(idx)
     fl['dtype'] = 'float64' if vec['form'] in (4, 5) or idx % 3 else 'int64'
+    fl['scale'] = SCALES[idx % 6] if fl['dtype'] == 'float64' else 1.0
     P, K = vec['P'], len(vec['blocks'])
     single = vec['form'] in (1, 4)
     calls, notes = [], []
@@ -529,10 +548,11 @@ def record_trace(vec, est, idx, corrupt=False):
         if mats is None:
             notes.append(('shape', method, _describe(res)))
             continue
+        c2 = float(fl.get('scale', 1.0)) ** 2
         if method == 'full':
-            fulls = [np.asarray(m, float) for m in mats]
+            fulls = [np.asarray(m, float) / c2 for m in mats]
         for k in range(K):
-            M = np.asarray(mats[k], np.float64)
+            M = np.asarray(mats[k], np.float64) / c2
             d = believed_dof(vec, k)
             ev = {'est': {'residuals': 1, 'measurements': 2, 'unbalanced': 3}[est], 'meth': mi + 1, 'k': k + 1,
                   'dofS': d, 'Q': 1, 'lamQ': 0}
